@@ -309,6 +309,11 @@ func tryGetRedumpKey(fsys afero.Fs, requestedPath string) ([]byte, error) {
 		return ReadKeyFile(keyFile)
 	}
 
+	// existing key that can't be opened must not be silently replaced by another one (or by no decryption at all)
+	if !errors.Is(err, afero.ErrFileNotFound) {
+		return nil, err
+	}
+
 	// try .dkey in REDKEY directory (instead of PS3ISO)
 	pathElems[ps3IsoIdx] = redkeyDir
 	pathElems[len(pathElems)-1] = strings.TrimSuffix(pathElems[len(pathElems)-1], ext) + dkeyExt
